@@ -13,11 +13,9 @@ import (
 	"encoding/xml"
 	"fmt"
 	"io"
-	"reflect"
 	"sort"
 	"strings"
 
-	"mellium.im/xmlstream"
 	"mellium.im/xmpp/internal/marshal"
 	"mellium.im/xmpp/jid"
 	"mellium.im/xmpp/stanza"
@@ -1052,9 +1050,6 @@ func checkStreamError(c *core.Case, v Val) {
 		}
 	}
 }
-
-var _ = reflect.DeepEqual
-var _ = xmlstream.Copy
 
 func run(c *core.Case) {
 	discarded := 0
